@@ -278,10 +278,6 @@ def gen_rank(repo):
     vs = enum_variants(s, 'Rank')
     if len(vs) != 13:
         raise ExtractError('Rank: expected 13 variants')
-    prev = table_by_variant(match_arms(block_after(s, r'fn\s+prev\s*\(', 'Rank::prev'), 'prev'),
-                            'Rank', vs, 'Rank::prev', opt_variant('Rank', vs))
-    nxt = table_by_variant(match_arms(block_after(s, r'fn\s+next\s*\(', 'Rank::next'), 'next'),
-                           'Rank', vs, 'Rank::next', opt_variant('Rank', vs))
     ch = char_to_variant(match_arms(block_after(s, r'impl\s+TryFrom<&char>\s+for\s+Rank', 'TryFrom<&char> for Rank'),
                                     'Rank try_from'), 'Rank', vs, 'Rank try_from')
     u8 = table_by_variant(match_arms(block_after(s, r'impl\s+From<&Rank>\s+for\s+u8', 'From<&Rank> for u8'), 'Rank u8'),
@@ -300,9 +296,20 @@ def gen_rank(repo):
     out += 'def rankCharTbl : List Nat := %s\n' % lean_list(chars)
     out += '/-- arms of `Rank::try_from(&char)` in source order: (byte, declaration index); wildcard = Err -/\n'
     out += 'def rankOfCharArms : List (Nat × Nat) := [' + ', '.join('(%d, %d)' % p for p in ch) + ']\n'
-    out += 'def rankPrevTbl : List (Option Nat) := [' + ', '.join(lean_opt(x).strip('()') if x is None else 'some %d' % x for x in prev) + ']\n'
-    out += 'def rankNextTbl : List (Option Nat) := [' + ', '.join('none' if x is None else 'some %d' % x for x in nxt) + ']\n'
     return out + FOOTER, vs
+
+
+def gen_rank_succ(repo, vs):
+    """`Rank::next` / `Rank::prev` (their own item: only the range notation and the formatter use them)"""
+    s = load(repo, 'src/card/rank.rs')
+    prev = table_by_variant(match_arms(block_after(s, r'fn\s+prev\s*\(', 'Rank::prev'), 'prev'),
+                            'Rank', vs, 'Rank::prev', opt_variant('Rank', vs))
+    nxt = table_by_variant(match_arms(block_after(s, r'fn\s+next\s*\(', 'Rank::next'), 'next'),
+                           'Rank', vs, 'Rank::next', opt_variant('Rank', vs))
+    out = HEADER
+    out += 'def rankPrevTbl : List (Option Nat) := [' + ', '.join('none' if x is None else 'some %d' % x for x in prev) + ']\n'
+    out += 'def rankNextTbl : List (Option Nat) := [' + ', '.join('none' if x is None else 'some %d' % x for x in nxt) + ']\n'
+    return out + FOOTER
 
 
 def gen_suit(repo):
@@ -492,7 +499,7 @@ def gen_tables(repo):
              'AS_RAINBOW': hashlib.sha256(json.dumps(rb).encode()).hexdigest()})
 
 
-def gen_madehand(repo, ranks, suits):
+def gen_handtype(repo):
     s = load(repo, 'src/evaluator/made_hand.rs')
     # hand_type arms
     ht = block_after(s, r'pub\s+fn\s+hand_type\s*\(', 'hand_type')
@@ -510,14 +517,28 @@ def gen_madehand(repo, ranks, suits):
         if wild is not None:
             raise ExtractError('hand_type: arm after wildcard')
         pm = re.fullmatch(r'(\d+)\.\.=(\d+)', norm(pat))
+        ph = re.fullmatch(r'(\d+)\.\.(\d+)', norm(pat))
         if pm:
             arms.append((int(pm.group(1)), int(pm.group(2)), mm.group(1)))
+        elif ph and int(ph.group(2)) > 0:
+            # half-open `a..b` = inclusive `a..=b-1`
+            arms.append((int(ph.group(1)), int(ph.group(2)) - 1, mm.group(1)))
         elif re.fullmatch(r'\d+', norm(pat)):
             arms.append((int(norm(pat)), int(norm(pat)), mm.group(1)))
         else:
             raise ExtractError('hand_type: unsupported pattern %r' % pat)
     if wild is None:
         raise ExtractError('hand_type: no wildcard arm')
+    ht_out = HEADER
+    ht_out += 'def categoryNames : List String := [' + ', '.join(lean_str(v) for v in cats) + ']\n'
+    ht_out += '/-- arms of `hand_type` in source order: (lo, hi inclusive, category declaration index) -/\n'
+    ht_out += 'def handTypeArms : List (Nat × Nat × Nat) := [' + ', '.join('(%d, %d, %d)' % (a, b, cats.index(c)) for a, b, c in arms) + ']\n'
+    ht_out += 'def handTypeWild : Nat := %d\n' % cats.index(wild)
+    return ht_out + FOOTER
+
+
+def gen_madehand(repo, ranks, suits):
+    s = load(repo, 'src/evaluator/made_hand.rs')
     # find_flush_suit
     ff = norm(block_after(s, r'fn\s+find_flush_suit', 'find_flush_suit'))
     want = ('letmutsuit_counts=[0;4];forcardincards{letsuit=card.suit();letsuit_index=u8::from(suit)asusize;'
@@ -558,10 +579,6 @@ def gen_madehand(repo, ranks, suits):
         raise ExtractError('struct MadeHand(u16) not found')
     out = HEADER
     out += 'def madeHandDerives : List String := [' + ', '.join(lean_str(v) for v in sorted(norm(mm.group(1)).split(','))) + ']\n'
-    out += 'def categoryNames : List String := [' + ', '.join(lean_str(v) for v in cats) + ']\n'
-    out += '/-- arms of `hand_type` in source order: (lo, hi inclusive, category declaration index) -/\n'
-    out += 'def handTypeArms : List (Nat × Nat × Nat) := [' + ', '.join('(%d, %d, %d)' % (a, b, cats.index(c)) for a, b, c in arms) + ']\n'
-    out += 'def handTypeWild : Nat := %d\n' % cats.index(wild)
     out += 'def flushThreshold : Nat := %d\n' % threshold
     out += '/-- weight added by `hash_for_flush`, by rank declaration index -/\n'
     out += 'def flushWeightTbl : List Nat := %s\n' % lean_list(weights)
@@ -764,6 +781,10 @@ def main():
     r = run('Suit', lambda: gen_suit(repo), ['Suit.lean'])
     if r:
         suits = r[1]
+    if ranks:
+        run('RankSucc', lambda: gen_rank_succ(repo, ranks), ['RankSucc.lean'])
+    else:
+        errors['RankSucc'] = 'depends on Rank which could not be read'
     if ranks and suits:
         run('CardBits', lambda: gen_card(repo, ranks, suits), ['CardBits.lean'])
         run('Ranges', lambda: gen_ranges(repo, ranks, suits), ['Ranges.lean'])
@@ -774,6 +795,7 @@ def main():
         for it in ('CardBits', 'Ranges', 'DpRef', 'MadeHand', 'RankPair'):
             errors[it] = 'depends on Rank/Suit which could not be read'
     run('Pair', lambda: gen_pair(repo), ['Pair.lean'])
+    run('HandType', lambda: gen_handtype(repo), ['HandType.lean'])
     r = run('Tables', lambda: gen_tables(repo), ['AsFlush.lean', 'AsRainbow.lean'])
     if r:
         extra['table_sha256'] = r[2]
